@@ -4,6 +4,7 @@
 From Coq Require Import List ZArith NArith Bool Arith String.
 From CE Require Import Num Str TableTypes TableModel Comp ESpec Formula FormulaSpec CBind CBindProofs.
 Import ListNotations.
+Local Open Scope nat_scope.
 
 Section C17.
   Variable tbl : list (string * elem).
